@@ -1,10 +1,11 @@
 from kappadata.datasets.kd_subset import KDSubset
+from kappadata.utils.class_counts import get_num_classes
 from kappadata.utils.getall_as_tensor import getall_as_tensor
 
 
 class SortByClassWrapper(KDSubset):
     def __init__(self, dataset):
-        num_classes = dataset.getdim_class()
+        num_classes = get_num_classes(dataset)
         classes = getall_as_tensor(dataset)
         indices = []
         for i in range(num_classes):
